@@ -93,6 +93,11 @@ def build_batch(cfg):
         if cfg.get("pad_coords"):
             for a in range(len(z), n):
                 xyz[i, a] = [rng.uniform(-3, 3) for _ in range(3)]
+    if cfg.get("only") is not None:
+        # the same molecule (same distortion and orientation) taken out of its batch
+        m = int(cfg["only"])
+        nat = int((sp[m] > 0).sum())
+        sp, xyz = sp[m : m + 1, :nat].copy(), xyz[m : m + 1, :nat].copy()
     return sp, xyz
 
 
